@@ -3,8 +3,10 @@
 // The monitor plays the controller with refctl and therefore knows, for every message it builds, whether the
 // connection has proved knowledge of the setup code in the exchange opened by the last accepted start.  After
 // EVERY message the set of stored entities is compared with the previous snapshot:
-//   db changed  =>  the message is a key-exchange sealed under the key of a proved exchange on this connection,
-//                   correctly signed, and the only change is the new entity (name, ltpk) of that message.
+//
+//	db changed  =>  the message is a key-exchange sealed under the key of a proved exchange on this connection,
+//	                correctly signed, and the only change is the new entity (name, ltpk) of that message.
+//
 // Harness (i): pair.SetupServerController.Handle in-process, one or two controllers sharing one database.
 // Harness (ii): the same alphabet over /pair-setup on a real transport.
 package main
@@ -12,6 +14,7 @@ package main
 import (
 	"bytes"
 	"crypto/ed25519"
+	"encoding/hex"
 	"fmt"
 	"math/big"
 	"math/rand"
@@ -34,13 +37,14 @@ import (
 var run *vf.Run
 
 type symbol struct {
-	Kind string `json:"kind"` // start | verify | exchange | step | method
+	Kind string `json:"kind"` // start | verify | exchange | step | method | admin
 	Var  string `json:"variant"`
 }
 
 var alphabet = []symbol{
 	{"start", ""},
 	{"verify", "right"}, {"verify", "wrong-proof"}, {"verify", "A=0"}, {"verify", "A=N"}, {"verify", "A=2N"}, {"verify", "A-missing"}, {"verify", "proof-missing"},
+	{"verify", "replay-recorded"},
 	{"exchange", "genuine"}, {"exchange", "tampered-ciphertext"}, {"exchange", "tampered-tag"}, {"exchange", "short"}, {"exchange", "replay"},
 	{"exchange", "zero-key"}, {"exchange", "hkdf-of-empty-secret"}, {"exchange", "random-key"}, {"exchange", "signed-by-other-key"},
 	{"exchange", "permuted-material"}, {"exchange", "name-swapped"}, {"exchange", "key-swapped"},
@@ -56,24 +60,33 @@ var coreAlphabet = []symbol{
 
 // peer is the controller-side state of one connection.
 type peer struct {
-	salt, B  []byte // from the last accepted start
-	started  bool
-	srp      *refctl.SRPClient // computed for (salt, B) with the right code
-	proofOK  bool              // the accessory answered our right proof with a valid server proof, since the last accepted start
-	me       *refctl.Identity
+	salt, B []byte // from the last accepted start
+	started bool
+	srp     *refctl.SRPClient // computed for (salt, B) with the right code
+	proofOK bool              // the accessory answered our right proof with a valid server proof, since the last accepted start
+	me      *refctl.Identity
 }
 
 type world struct {
-	code     string
-	rnd      *rand.Rand
-	lastGood []byte // a genuine M5 of an earlier, completed exchange
-	expect   map[string][]byte // model of stored controllers: name -> ltpk
+	code                    string
+	rnd                     *rand.Rand
+	lastGood                []byte // a genuine M5 of an earlier, completed exchange
+	recordedM3              []byte // the last verify message with a right proof (recorded on any connection, e.g. by an eavesdropper)
+	lastStored              string // name of the controller stored by the last legitimate key exchange
+	recordedOn              *peer  // the connection the recorded verify message was sent on
+	recordedSalt, recordedB []byte
+	recordedSrp             *refctl.SRPClient
+	lastGoodName            string
+	lastGoodLTPK, lastGoodK []byte
+	fixedConns              []int             // when set: the connection of each step (targeted histories)
+	expect                  map[string][]byte // model of stored controllers: name -> ltpk
 }
 
 // transport abstracts "send a pair-setup message on connection i and get the answer".
 type transport interface {
 	send(conn int, msg []byte) (status int, body []byte, dropped bool)
 	entities() (map[string][]byte, error) // stored controller entities name -> ltpk (the accessory's own entity excluded)
+	remove(name string)                   // delete a stored controller (admin action of the monitor)
 }
 
 func bigBytes(x *big.Int) []byte { return x.Bytes() }
@@ -123,11 +136,28 @@ func build(w *world, p *peer, s symbol) built {
 			return built{msg: refctl.SetupM3(cl.Abytes, make([]byte, 64))}
 		}
 		switch s.Var {
+		case "replay-recorded":
+			// a verify message recorded from an earlier exchange (this or another connection): NOT a proof of knowledge
+			if w.recordedM3 != nil {
+				// On the connection it was recorded on, and against the very same (salt, B), the recorded message IS
+				// the peer's own earlier proof (hc keeps one SRP session per connection): that is the same peer
+				// proving the same thing again, not a replay by somebody else.
+				if w.recordedOn == p && p.started && bytes.Equal(p.salt, w.recordedSalt) && bytes.Equal(p.B, w.recordedB) {
+					p.srp = w.recordedSrp
+					return built{msg: w.recordedM3, rightProof: true}
+				}
+				return built{msg: w.recordedM3}
+			}
+			return built{msg: refctl.SetupM3(cl.Abytes, make([]byte, 64))}
 		case "right":
 			if p.started {
 				p.srp = cl
 			}
-			return built{msg: refctl.SetupM3(cl.Abytes, cl.M1), rightProof: p.started}
+			m := refctl.SetupM3(cl.Abytes, cl.M1)
+			if p.started {
+				w.recordedM3, w.recordedOn, w.recordedSalt, w.recordedB, w.recordedSrp = m, p, p.salt, p.B, cl
+			}
+			return built{msg: m, rightProof: p.started}
 		case "wrong-proof":
 			return built{msg: refctl.SetupM3(cl.Abytes, cl.M1)}
 		case "A=0":
@@ -178,7 +208,10 @@ func build(w *world, p *peer, s symbol) built {
 		case "replay":
 			if w.lastGood != nil {
 				b.msg = w.lastGood
-				b.name, b.ltpk = "", nil
+				b.name, b.ltpk = w.lastGoodName, w.lastGoodLTPK
+				// genuine again only if this connection proved the very same exchange key (possible on the connection
+				// the message was recorded on, which keeps its SRP session)
+				b.legit = proved && bytes.Equal(w.lastGoodK, p.srp.K)
 				return b
 			}
 			b.msg = refctl.SetupM5Raw(make([]byte, 60))
@@ -283,7 +316,21 @@ func runHistory(hno int, tr transport, w *world, seq []symbol, nconn int, harnes
 		if nconn > 1 && w.rnd.Intn(2) == 0 {
 			ci = 1
 		}
+		if step < len(w.fixedConns) {
+			ci = w.fixedConns[step]
+		}
 		p := peers[ci]
+		if s.Kind == "admin" {
+			// the monitor itself removes the controller stored last (what an admin controller's "remove pairing" does);
+			// the snapshot is refreshed, this is not a message of the peer
+			if w.lastStored != "" {
+				tr.remove(w.lastStored)
+				run.Count("admin_removals", 1)
+			}
+			prev, _ = tr.entities()
+			trace = append(trace, map[string]interface{}{"step": step, "admin": "removed pairing " + w.lastStored})
+			continue
+		}
 		b := build(w, p, s)
 		status, body, dropped := tr.send(ci, b.msg)
 		run.Count(harness+"_messages", 1)
@@ -331,6 +378,11 @@ func runHistory(hno int, tr transport, w *world, seq []symbol, nconn int, harnes
 			}
 			run.Count("legitimate_stores", 1)
 			w.lastGood = b.msg
+			w.lastStored = b.name
+			w.lastGoodName, w.lastGoodLTPK = b.name, b.ltpk
+			if p.srp != nil {
+				w.lastGoodK = p.srp.K
+			}
 		} else if s.Kind == "exchange" && b.legit && !dropped {
 			run.Count("legit_exchange_not_stored(C04's business)", 1)
 		}
@@ -340,7 +392,9 @@ func runHistory(hno int, tr transport, w *world, seq []symbol, nconn int, harnes
 		}
 		prev = now
 	}
-	run.SampleAt(hno, func() interface{} { return map[string]interface{}{"harness": harness, "sequence": seq, "connections": nconn} })
+	run.SampleAt(hno, func() interface{} {
+		return map[string]interface{}{"harness": harness, "sequence": seq, "connections": nconn}
+	})
 }
 
 // ---------------------------------------------------------------- harness (i): in-process
@@ -394,6 +448,7 @@ func (ip *inproc) send(conn int, msg []byte) (int, []byte, bool) {
 }
 
 func (ip *inproc) entities() (map[string][]byte, error) { return storedControllers(ip.dir) }
+func (ip *inproc) remove(name string)                   { ip.db.DeleteEntity(db.NewEntity(name, nil, nil)) }
 
 func storedControllers(dir string) (map[string][]byte, error) {
 	es, err := app.Entities(dir)
@@ -441,6 +496,9 @@ func (f *fullstack) send(conn int, msg []byte) (int, []byte, bool) {
 }
 
 func (f *fullstack) entities() (map[string][]byte, error) { return storedControllers(f.a.Dir) }
+func (f *fullstack) remove(name string) {
+	os.Remove(f.a.Dir + "/" + hex.EncodeToString([]byte(name)) + ".entity")
+}
 
 func (f *fullstack) reset() {
 	for i, c := range f.conns {
@@ -526,6 +584,34 @@ func main() {
 			}
 		}
 	}
+	// replay of a recorded genuine exchange on ANOTHER connection after the pairing was removed (needs two connections)
+	replaySeqs := [][]symbol{
+		{{"start", ""}, {"verify", "right"}, {"exchange", "genuine"}, {"admin", "remove-stored"}, {"start", ""}, {"verify", "replay-recorded"}, {"exchange", "replay"}},
+		{{"start", ""}, {"verify", "right"}, {"exchange", "genuine"}, {"admin", "remove-stored"}, {"start", ""}, {"verify", "replay-recorded"}, {"exchange", "genuine"}},
+		{{"start", ""}, {"verify", "right"}, {"start", ""}, {"verify", "replay-recorded"}, {"exchange", "genuine"}},
+		// same connection: the first start after the completed exchange is refused, the second accepted with the SAME
+		// (salt, B) because hc keeps one SRP session per connection: the peer's own earlier messages are valid again
+		{{"start", ""}, {"verify", "right"}, {"exchange", "genuine"}, {"admin", "remove-stored"}, {"start", ""}, {"start", ""}, {"verify", "replay-recorded"}, {"exchange", "replay"}},
+	}
+	replayConns := [][]int{{0, 0, 0, 0, 1, 1, 1}, {0, 0, 0, 0, 1, 1, 1}, {0, 0, 1, 1, 1}, {0, 0, 0, 0, 0, 0, 0, 0}}
+	for i, seq := range replaySeqs {
+		for _, same := range []bool{false, true} {
+			hno++
+			r.Nontrivial(fmt.Sprint("inproc-replay", seq, same))
+			code := app.FormatCode(randomCode(rnd))
+			ip, err := newInproc(code, 2)
+			if err != nil {
+				r.Inconclusive("inproc setup: " + err.Error())
+				continue
+			}
+			w := &world{code: code, rnd: rand.New(rand.NewSource(r.Seed*37 + int64(hno))), fixedConns: replayConns[i]}
+			if same {
+				w.fixedConns = make([]int, len(seq)) // everything on one connection
+			}
+			r.Guard("history", func() { runHistory(hno, ip, w, seq, 2, "inproc") })
+			os.RemoveAll(ip.dir)
+		}
+	}
 	n := r.Pick(300, 5000)
 	for i := 0; i < n; i++ {
 		k := 3 + rnd.Intn(6)
@@ -572,9 +658,18 @@ func main() {
 			if i == 1 {
 				seq = []symbol{{"start", ""}, {"verify", "A=0"}, {"exchange", "zero-key"}}
 			}
+			w.fixedConns = nil
+			if i >= 2 && i < 2+len(replaySeqs) {
+				seq = replaySeqs[i-2]
+				w.fixedConns = replayConns[i-2]
+			}
 			hno++
 			r.Nontrivial(fmt.Sprint("fullstack", seq))
-			r.Guard("fs-history", func() { runHistory(hno, fs, w, seq, 1+rnd.Intn(2), "fullstack") })
+			nc := 1 + rnd.Intn(2)
+			if w.fixedConns != nil {
+				nc = 2
+			}
+			r.Guard("fs-history", func() { runHistory(hno, fs, w, seq, nc, "fullstack") })
 			fs.reset()
 		}
 		a.Stop()
